@@ -859,6 +859,10 @@ def rule_no_stash(fx, col):
                 if ff:
                     n += 1
                     key = (ff[-1]['adt'], ff[-1]['name'])
+                    # (the cell may sit inside a private newtype that is itself one of the admitted fields: `generation: Generation(Cell<usize>)`)
+                    inside = next(((x['adt'], x['name']) for x in ff if (x['adt'], x['name']) in allowed), None)
+                    if inside is not None:
+                        key = inside
                     col.add('NO-STASH', '%s|Cell %s.%s' % (b.fname, U.short(key[0]), key[1]), key in allowed, 'thread-local cell written: %s' % (key,), b.loc(bb))
     col.floor('NO-STASH', 'thread-local cell writes', n, 3)
     st = sorted(s['pretty'].split('::')[-1] for s in lib.statics if '__RUST_STD_INTERNAL' not in s['pretty'])
